@@ -59,6 +59,14 @@ def _cases(ctx, deep=False):
                               'script': [['open'], ['wait_packets', k], ['close'], ['reconnect']]})
                 cases.append({'cfg': dict(base), 'seed': rng.randrange(1 << 30),
                               'script': [['bg_close', k], ['sync_open'], ['sleep', 0.5], ['sync_close'], ['reconnect']]})
+    # link error during connect(): reported synchronously, by the driver's thread before connect() returns, or by
+    # the driver thread as soon as it is scheduled
+    for s in range(seeds * 2):
+        for mode in ('connect_sync', 'connect_thread', 'driver'):
+            for sync in (True, False):
+                cases.append({'cfg': {'fault_at': 0, 'fault_mode': mode}, 'seed': rng.randrange(1 << 30),
+                              'script': [['sync_open'] if sync else ['open'], ['sleep', 0.5],
+                                         ['sync_close'] if sync else ['close'], ['reconnect']]})
     # no driver / driver raises / silent peer
     for s in range(seeds):
         cases.append({'cfg': {}, 'no_driver': True, 'seed': s, 'script': [['open'], ['close']]})
@@ -125,7 +133,7 @@ def _model_events(case, r):
     return evs
 
 
-EV_COQ = {'open': 'EOpen true', 'open_fail': 'EOpen false', 'pkt': 'EPacket', 'tocs': 'ETocs', 'params': 'EParams',
+EV_COQ = {'open': 'EOpenBegin', 'open_end_ok': 'EOpenEnd true', 'open_end_fail': 'EOpenEnd false', 'pkt': 'EPacket', 'tocs': 'ETocs', 'params': 'EParams',
           'err': 'ELinkErr', 'close': 'EClose'}
 CB_NUM = {'connection_requested': 0, 'connection_failed': 1, 'link_established': 2, 'connected': 3,
           'fully_connected': 4, 'disconnected': 5, 'connection_lost': 6, 'disconnected_link_error': 7}
